@@ -167,7 +167,7 @@ M("c19_labels_counted_ge", MD, "        if len(self.oracle_data) == self.oracle_
 M("c19_refusal_after_state_change", MD, "        labeled_columns = list(labeled_sample.columns)\n", "        self.drift_state = None\n        labeled_columns = list(labeled_sample.columns)\n", ["C19"])
 M("c19_forgetting_factor", MD, "            self.reference_distribution[\"len\"] - 1\n        ) / self.reference_distribution[\"len\"]", "            self.reference_distribution[\"len\"]\n        ) / (self.reference_distribution[\"len\"] + 1)", ["C19"])
 # (equivalent within the protocol: reset() re-assigning the margin density - the confirming give_oracle_label already adopted the new reference value)
-M("c19_update_counts_refused", MD, "        if self.waiting_for_oracle == True:\n            raise ValueError(\n                \"\"\"give_oracle_label method must be called", "        if self.waiting_for_oracle == True:\n            self.total_updates += 1\n            raise ValueError(\n                \"\"\"give_oracle_label method must be called", ["C19", "C14"])
+M("c19_update_counts_refused", MD, "        if self.waiting_for_oracle == True:\n            raise ValueError(\n                \"\"\"give_oracle_label method must be called", "        if self.waiting_for_oracle == True:\n            self.total_updates += 1\n            raise ValueError(\n                \"\"\"give_oracle_label method must be called", ["C19"])
 M("c19_accuracy_on_all_folds_train", MD, "            accuracy = accuracy_score(y_test, y_pred)\n            accuracies.append(accuracy)", "            accuracy = accuracy_score(y_test, y_pred)\n            accuracies.append(accuracy if len(accuracies) else 1.0)", ["C19"])
 M("c19_md_std_sample", MD, "        md_std = np.std(margin_densities)", "        md_std = np.std(margin_densities, ddof=1)", ["C19"])
 M("c19_oracle_not_cleared", MD, "            self.oracle_data = None\n            self.waiting_for_oracle = False", "            self.waiting_for_oracle = False", ["C19"])
@@ -260,3 +260,16 @@ M("c12_set_reference_unselected", EN, "            self.detectors[det_key].set_r
 M("c12_ensemble_auto_reset", EN, "        Ensemble.update(self, X=X, y_true=y_true, y_pred=y_pred)\n        StreamingDetector.update(self, X=X, y_true=y_true, y_pred=y_pred)", "        if self.drift_state == \"drift\":\n            StreamingDetector.reset(self)\n        Ensemble.update(self, X=X, y_true=y_true, y_pred=y_pred)\n        StreamingDetector.update(self, X=X, y_true=y_true, y_pred=y_pred)", ["C12"])
 M("c12_recs_missing_member", EN, "            if hasattr(detector, \"retraining_recs\"):\n", "            if hasattr(detector, \"retraining_recs\") and detector.drift_state != \"warning\":\n", ["C12"])
 M("c12_copy_members", EN, "        self.detectors = detectors.copy()\n", "        import copy as _c\n        self.detectors = {k: _c.deepcopy(v) for k, v in detectors.items()}\n", ["C12"])
+
+M("c14_width_check_removed", DT, "            elif self._input_col_dim is not None:\n                if ary.shape[1] != self._input_col_dim:\n                    raise ValueError(\n                        \"Column-dimension of new data must match prior data.\"\n                    )\n\n        if ary.shape[0] != 1:",
+  "            elif self._input_col_dim is not None:\n                if ary.shape[1] != self._input_col_dim and ary.shape[1] < self._input_col_dim:\n                    raise ValueError(\n                        \"Column-dimension of new data must match prior data.\"\n                    )\n\n        if ary.shape[0] != 1:", ["C14"])
+M("c14_counters_before_validation", "menelaus/change_detection/page_hinkley.py", "        prior = (self._input_cols, self._input_col_dim)\n        X, _, _ = super()._validate_input(X, None, None)\n        if len(X.shape) > 1 and X.shape[1] != 1:",
+  "        prior = (self._input_cols, self._input_col_dim)\n        self.total_samples += 0\n        self._mean = self._mean * (1.0 if np.ndim(X) < 2 or np.shape(X)[0] == 1 else 0.5)\n        X, _, _ = super()._validate_input(X, None, None)\n        if len(X.shape) > 1 and X.shape[1] != 1:", ["C14"])
+M("c14_validate_y_two_obs", DT, "        ary = np.array(y).ravel()\n        if ary.shape != (1,):", "        ary = np.array(y).ravel()[:1] if np.ndim(y) == 1 and len(y) == 2 else np.array(y).ravel()\n        if ary.shape != (1,):", ["C14"])
+M("c14_names_as_sets", DT, "                if not X.columns.equals(self._input_cols):\n                    raise ValueError(\n                        \"Columns of new data must match with columns of prior data.\"\n                    )\n            ary = X.values\n        else:\n            ary = copy.copy(X)\n            ary = np.array(ary)\n            if len(ary.shape) <= 1:\n                # only one sample",
+  "                if set(X.columns) != set(self._input_cols):\n                    raise ValueError(\n                        \"Columns of new data must match with columns of prior data.\"\n                    )\n            ary = X.values\n        else:\n            ary = copy.copy(X)\n            ary = np.array(ary)\n            if len(ary.shape) <= 1:\n                # only one sample", ["C14"])
+M("c14_poison_again", DT, "        if ary.shape[0] != 1:\n            # a rejected input must not establish the expected columns\n            self._input_cols, self._input_col_dim = prior\n", "        if ary.shape[0] != 1:\n", ["C14"])
+M("c14_batch_single_row_accepted", DT, "        if ary.shape[0] <= 1:\n", "        if ary.shape[0] < 1:\n", ["C14"])
+M("c14_series_as_column", DT, "            if len(ary.shape) <= 1:\n                # only one sample should be passed, so coerce column vectors (e.g. pd.Series) to rows\n                ary = ary.reshape(1, -1)", "            if len(ary.shape) <= 1:\n                # only one sample should be passed, so coerce column vectors (e.g. pd.Series) to rows\n                ary = ary.reshape(1, -1) if not hasattr(X, \"iloc\") else ary.reshape(-1, 1)", ["C14"])
+M("c14_kdq_reset_after_validation_counter", KD, "        X, _, _ = super()._validate_input(X, None, None)\n        StreamingDetector.update(self, X, None, None)", "        StreamingDetector.update(self, X, None, None)\n        X, _, _ = super()._validate_input(X, None, None)", ["C14"])
+M("c14_cdbd_list_again", "menelaus/data_drift/cdbd.py", "        if len(np.shape(X)) > 1 and np.shape(X)[1] != 1:\n            raise ValueError(\"CDBD should only be used to monitor 1 variable.\")\n        super().update(X, None, None)", "        if len(X.shape) > 1 and X.shape[1] != 1:\n            raise ValueError(\"CDBD should only be used to monitor 1 variable.\")\n        super().update(X, None, None)", ["C14"])
